@@ -100,6 +100,48 @@ def replicatedP (l : List (Person F × Nat)) : List (Person F) :=
   l.flatMap fun x => List.replicate x.2 (x.1.setW ((1 : Nat) : F))
 end
 
+/-! ### SurvivalGFormula with a frequency weight on every person-period row
+
+The weights column of the long data set is a per-ROW column: an individual is a list of rows `(time, hazard, k)` in
+time order.  zEpid's weighted mean at time `t` takes each row with its own weight.  Physical replication repeats
+each row `k` times; copy `j` of a row belongs to copy `j` of the individual, so copy `j` of the individual consists of
+the rows with `j < k` (when the weights never rise during follow-up this is an initial segment of the follow-up). -/
+
+section
+variable {F : Type} [Add F] [Sub F] [Mul F] [Div F] [NatCast F]
+
+/-- `k · f (cumulative risk)` of the individual's (first) row at time value `t`, `0` without such a row; `s` is the
+    survival before the first row.  `f = id`: the row's term of `Σ w·risk`; `f = 1`: its term of `Σ w` -/
+def rowAcc (f : F → F) (s : F) : List (Nat × F × Nat) → Nat → F
+  | [], _ => ((0 : Nat) : F)
+  | (u, h, k) :: rest, t =>
+    if u == t then ((k : Nat) : F) * f (((1 : Nat) : F) - s * (((1 : Nat) : F) - h))
+    else rowAcc f (s * (((1 : Nat) : F) - h)) rest t
+
+/-- `SurvivalGFormula._weighted_average` with row-level weights: `Σ w·risk / Σ w` over the rows at time `t` -/
+def survMarginalRows (P : List (List (Nat × F × Nat))) (t : Nat) : F :=
+  sumBy (fun p => rowAcc (fun r => r) ((1 : Nat) : F) p t) P /
+  sumBy (fun p => rowAcc (fun _ => ((1 : Nat) : F)) ((1 : Nat) : F) p t) P
+
+/-- the (time, hazard) rows of the `j`-th physical copy of the individual: the rows repeated more than `j` times -/
+def copyRows (j : Nat) (p : List (Nat × F × Nat)) : List (Nat × F) :=
+  (p.filter fun x => decide (j < x.2.2)).map fun x => (x.1, x.2.1)
+
+def maxW : List (Nat × F × Nat) → Nat
+  | [] => 0
+  | x :: rest => max x.2.2 (maxW rest)
+
+/-- the replicated data: every copy is an individual of weight one -/
+def replicatedRows (P : List (List (Nat × F × Nat))) : List (Person F) :=
+  P.flatMap fun p => (List.range (maxW p)).map fun j => ⟨0, ((1 : Nat) : F), copyRows j p⟩
+
+/-- the weights never rise during the individual's follow-up -/
+def nonIncreasing : List (Nat × F × Nat) → Bool
+  | [] => true
+  | x :: rest => rest.all (fun y => decide (y.2.2 ≤ x.2.2)) && nonIncreasing rest
+
+end
+
 /-! ### AIPTW when outcomes may be missing -/
 section
 variable {F : Type} [Add F] [Sub F] [Mul F] [Div F] [Neg F] [NatCast F]
